@@ -15,7 +15,7 @@ import (
 func init() {
 	families["C09"] = runC09
 	for _, op := range []string{"NewFilter", "LoadFilter", "Reload", "Unload", "IsLoaded", "Add", "AddHash", "AddOutPoint",
-		"Matches", "MatchesOutPoint", "GetMsg"} {
+		"Matches", "MatchesOutPoint", "GetMsg", "BloomObserve"} {
 		ops[op] = opBloom
 	}
 	ops["Murmur"] = opMurmur
@@ -135,6 +135,13 @@ func opBloom(h *HState, a Event) Event {
 		h.Obj["f"] = o
 	}
 	op := gName(a, "op")
+	if op == "BloomObserve" { // final observation of a history (DeferredOp): the whole state, nothing else
+		if o.f == nil || o.dead {
+			return Event{"op": op, "all": map[string]interface{}{"loaded": false, "dead": o.dead}}
+		}
+		o.had = false
+		return Event{"op": op, "all": post(o, true)}
+	}
 	if o.dead {
 		// after a panic / hang inside a locked method the object is unusable; the
 		// remaining calls of the history are recorded as skipped
@@ -189,6 +196,9 @@ func opBloom(h *HState, a Event) Event {
 		o.dead = true
 		return e
 	}
+	if gBool(a, "noobs") { // quiet second execution: the message is not read between the calls
+		return e
+	}
 	pp, pmsg, ph := guardT(20*time.Second, func() { e["post"] = post(o, full) })
 	if pp || ph {
 		e["panic"] = "post: " + pmsg
@@ -234,6 +244,7 @@ func randTweak(c *Ctx, k int) uint32 {
 }
 
 func runC09(c *Ctx) {
+	c.DeferredOp = "BloomObserve"
 	r := c.Rng
 	// MurmurHash3 itself: every length 0..40 x boundary seeds
 	for n := 0; n <= 40; n++ {
